@@ -27,9 +27,13 @@ Scheduler program counter `spc`: 0 loop head · 1 shutdown flag read as unset ·
 the finished token or the recheck ticker · 6/7/8 = 2/3/4 of `microTaskShutdownScheduler`.
 
 Max-delay timers are actions that are enabled at any time (sound over-approximation); `tmo` counts them.
-A `Signal*MicroTask` call made with max delay 0 is special: the documentation says 0 means "the default value",
-the code (as regenerated: `signal*DefaultsZeroDelay = false`) passes 0 to `time.After`, so its timer fires at
-once; these expiries are the `z = true` timer actions, counted separately in `tz`.
+They come in two kinds. `z = false`: the timer fires when the documented max delay of the call has expired (the
+proviso of the limit clause). `z = true`: it fires *before* that — possible only where the source makes it so
+(`earlyExp`, over regenerated facts): a `Signal*MicroTask` call made with max delay 0 (the documentation says 0
+means "the default value", the code — `signal*DefaultsZeroDelay = false` — passes the 0 to `time.After`, so the
+timer fires at once), or a timer that is not armed with the caller's max delay at all (`armed ph p ≠ .param`:
+the table of what each of the four `time.After` calls — enqueue / wait phase × medium / low — is armed with).
+Early expiries are counted separately in `tz` (per followed task: `ez`).
 The priority order of the scheduler's `select` cascade is abstracted to a free choice among offered
 requests (`take`), `pickOther` is the `taskTimeslot` / `triggerLogWriting` branch.
 -/
